@@ -42,6 +42,8 @@ func runC06(p *Prog, r *Report) {
 	underlyingMatchesCompleteRule(p, r, "C06.R17")
 	lookupContextRule(p, r, "C06.R18")
 	underlyingMappingCompleteRule(p, r, "C06.R19")
+	forwardToExtendRule(p, r, "C06.R20")
+	componentRecursionRule(p, r, "C06.R21")
 	r.Rule("C06.R15", "context arguments of custom functions are recognised with the regex in effect where the function is named: the ParseOpts handed to the loader for map … | FUNC and default FUNC carry the method's ArgContextRegex, those for extend the converter's (shared with C12.R3) — otherwise a context parameter is classified as the source and receives the conversion source", 3)
 	parseOptsContextRule(p, r)
 	calleeErrRule(p, r, "C06.R8", "the error of Index.Get (`a function for these types exists but its context is not available`) is never dropped: at every call no success return is reachable while it may be non-nil — generation fails instead of silently using another rule", 2, func(f *types.Func) bool {
